@@ -1,3 +1,40 @@
-From Ebml Require Import Base Tools Spec Writer.
-Example C10_ex : size_to_vint 127 0 = Some [64; 127].
+(* C10 — writer streams: flushed bytes are final, and complete when no sized master is open.  Statements only. *)
+From Ebml Require Import Base Tools Spec Writer Proofs.Tactics Proofs.SpecProofs Proofs.WriterProofs.
+
+(* bytes handed to the destination are never retracted or altered: every call only appends to them, for every call,
+   state, specification and destination write script *)
+Theorem C10_prefix_step : forall sp st op st' r, wstep sp st op = (st', r) -> exists x, w_dest st' = w_dest st ++ x.
+Proof. exact wstep_prefix. Qed.
+
+(* hence at every moment the delivered bytes are a prefix of the final output *)
+Theorem C10_prefix_run : forall sp ops st st' rs, wrun sp st ops = (st', rs) -> exists x, w_dest st' = w_dest st ++ x.
+Proof. exact wrun_prefix. Qed.
+
+(* a call that returns successfully while no known-size master is open leaves nothing in the working buffer:
+   every byte of every tag accepted so far has been handed over *)
+Theorem C10_drained : forall sp st op st', wstep sp st op = (st', WOk) -> has_known (w_open st') = false -> w_buf st' = [].
+Proof. exact wstep_drained. Qed.
+
+(* while a known-size master is open (after the call), the call handed nothing over *)
+Theorem C10_held : forall sp st t o st' r, write_advanced sp st t o = (st', r) -> r <> WPanic ->
+  has_known (w_open st') = true -> w_dest st' = w_dest st.
+Proof. exact write_held. Qed.
+
+(* buffering itself never touches the destination *)
+Theorem C10_buffering_silent : forall sp t o st st1 r, buffer_tag sp t o st = (st1, r) -> w_dest st1 = w_dest st /\ w_script st1 = w_script st.
+Proof. exact buffer_dest. Qed.
+
+(* flush() and into_inner() close all open masters and deliver everything *)
+Theorem C10_flush : forall st st', flush st = (st', WOk) -> w_open st' = [] /\ w_buf st' = [].
+Proof. exact flush_closes_all. Qed.
+Theorem C10_into_inner : forall sp st st', wstep sp st OpIntoInner = (st', WOk) -> w_open st' = [] /\ w_buf st' = [].
+Proof. intros sp. exact flush_closes_all. Qed.
+
+Example C10_ex :
+  let sp := [ {| e_id := 129; e_ty := DMaster; e_path := [] |}; {| e_id := 16643; e_ty := DMaster; e_path := [PId 129] |};
+              {| e_id := 16642; e_ty := DBinary; e_path := [PId 129; PId 16643] |} ] in
+  let u := {| o_len := None; o_unknown := true |} in
+  (* unknown-size Root: its header is delivered at once; known-size Parent: nothing until its End; then everything *)
+  map snd (snd (wrun sp (w_init []) [OpWrite (TStart 129) u; OpWrite (TStart 16643) o_default; OpWrite (TElem 16642 (VB [7])) o_default;
+                                    OpWrite (TEnd 16643) o_default; OpFlush])) = [9; 9; 9; 16; 16]%nat.
 Proof. vm_compute. reflexivity. Qed.
